@@ -145,49 +145,66 @@ func fuzzSetup() {
 func FuzzJWTVerify(f *testing.F) {
 	fuzzSetup()
 	vals := fuzzValidators()
-	// seeds: a valid token for every key and validator variant ...
-	payloads := []string{
-		`{"custom":[1,"a",null,{"b":true}]}`,
-		`{"iss":"issuer","aud":["other","me"],"exp":1700000030,"nbf":1700000000,"iat":1700000060,"sub":"s","jti":"j"}`,
-		`{"exp":1700000001}`,
-	}
+	// seeds: for every key valid tokens under each validator variant, tokens sitting exactly on the
+	// expiry / not-before bounds, and one token per header / encoding rule (all with the "re-sign"
+	// bit, so the target puts a genuine signature behind them) ...
+	enc := func(s string) string { return jwtref.B64Encode([]byte(s)) }
+	full := `{"iss":"issuer","aud":["other","me"],"exp":1700000030,"nbf":1700000060,"iat":1700000060,"sub":"s","jti":"j"}`
 	for i, fp := range fuzzParties {
-		for vi := range vals {
-			var typ *string
-			if vi == 1 {
-				typ = sptr("JWT")
-			}
-			h := object(goodHeader(fp.k, typ))
-			unsigned := jwtref.B64Encode([]byte(h)) + "." + jwtref.B64Encode([]byte(payloads[vi]))
-			sig, err := fp.k.mat.Sign(fp.k.alg, []byte(unsigned))
-			if err != nil {
-				f.Fatal(err)
-			}
-			sel := uint8(i + 45*vi)
-			if i+45*vi < 128 {
-				f.Add(sel, unsigned+"."+jwtref.B64Encode(sig))
-				f.Add(sel|0x80, unsigned+".")
+		k := fp.k
+		jwtTyp := sptr("JWT")
+		good := goodHeader(k, nil)
+		add := func(vi int, header, payload string) {
+			if sel := i + 45*vi; sel < 128 {
+				f.Add(uint8(sel)|0x80, enc(header)+"."+enc(payload)+".")
 			}
 		}
+		// a complete token with its signature in place
+		unsigned := enc(object(good)) + "." + enc(`{"custom":[1,"a",null,{"b":true}]}`)
+		sig, err := k.mat.Sign(k.alg, []byte(unsigned))
+		if err != nil {
+			f.Fatal(err)
+		}
+		f.Add(uint8(i), unsigned+"."+jwtref.B64Encode(sig))
+		add(0, object(good), `{}`)
+		add(1, object(goodHeader(k, jwtTyp)), full)                                                        // nbf and iat exactly at now+skew
+		add(1, object(goodHeader(k, jwtTyp)), strings.Replace(full, `"nbf":1700000060`, `"nbf":1700000061`, 1)) // one second too late
+		add(1, object(goodHeader(k, jwtTyp)), strings.Replace(full, `"exp":1700000030`, `"exp":1699999940`, 1)) // exp exactly at now-skew
+		add(1, object(goodHeader(k, jwtTyp)), strings.Replace(full, `"exp":1700000030`, `"exp":1699999941`, 1))
+		add(1, object(good), full)                                                                              // typ expected but absent
+		add(1, object(goodHeader(k, jwtTyp)), strings.Replace(full, `"aud":["other","me"],`, ``, 1))         // aud expected but absent
+		add(1, object(goodHeader(k, jwtTyp)), strings.Replace(full, `"aud":["other","me"]`, `"aud":"me"`, 1)) // single string audience
+		add(2, object(good), `{"exp":1700000000}`) // expired exactly now
+		add(2, object(good), `{"exp":1700000001}`)
+		add(0, object(append(append([]member{}, good...), member{"crit", `["exp"]`})), `{}`)
+		add(0, object(replaceMember(good, "kid", "")), `{}`)
+		add(0, object(replaceMember(good, "kid", `"wrong"`)), `{}`)
+		add(0, object(replaceMember(good, "kid", `1`)), `{}`)
+		add(0, object(replaceMember(good, "alg", jstr(strings.ToLower(k.alg)))), `{}`)
+		add(0, object(replaceMember(good, "alg", `"none"`)), `{}`)
+		add(0, object(replaceMember(good, "typ", `1`)), `{}`)
+		add(0, object(append([]member{{"alg", `"none"`}}, good...)), `{}`)
+		add(0, object(good), `{"aud":[]}`)
+		add(0, object(good), `{"exp":"1700000001"}`)
+		add(0, object(good), `{"exp":1.7000000015e9,"iss":"\ud800"}`)
+		add(0, object(good), `null`)
+		add(0, object(good), "{\"iss\":\"\xff\"}")
+		add(0, object(good), `{"a":`+strings.Repeat("[", 200)+strings.Repeat("]", 200)+`}`)
+		if sel := i; true {
+			// encoding rules: padding, standard alphabet, whitespace (signed as written)
+			h := object(good)
+			for len(h)%3 == 0 {
+				h += " "
+			}
+			f.Add(uint8(sel)|0x80, enc(h)+strings.Repeat("=", 4-len(enc(h))%4)+"."+enc(`{}`)+".")
+			f.Add(uint8(sel)|0x80, enc(object(good))+"\n."+enc(`{}`)+".")
+			f.Add(uint8(sel)|0x80, strings.NewReplacer("-", "+", "_", "/").Replace(enc(object(append(append([]member{}, good...), member{"q", `"??????"`}))))+"."+enc(`{}`)+".")
+			f.Add(uint8(sel)|0x80, enc(object(good))+"."+enc(`{}`)+".x.")
+		}
 	}
-	// ... and hostile constants (re-signed by the target when the high bit is set)
-	enc := func(s string) string { return jwtref.B64Encode([]byte(s)) }
-	for _, c := range []string{
-		"", ".", "..", "...", "a.b.c", "e30.e30.", "e30.e30.AA",
-		enc(`{"alg":"none"}`) + "." + enc(`{}`) + ".",
-		enc(`{"alg":"HS256","crit":["exp"]}`) + "." + enc(`{"exp":1700000001}`) + ".",
-		enc(`{"alg":"HS256","alg":"none"}`) + "." + enc(`{}`) + ".",
-		enc(`{"alg":"ES256","kid":1}`) + "." + enc(`{"exp":1.7e9}`) + ".",
-		enc(`{"alg":"RS256","typ":1}`) + "." + enc(`{"aud":[]}`) + ".",
-		enc(`{"alg":"PS256","kid":"custom-kid"}`) + "." + enc(`{"exp":1700000000.5,"iss":"\ud800"}`) + ".",
-		enc(`{"alg":"ML-DSA-44"}`) + "." + enc(`{"exp":253402300800}`) + ".",
-		enc(`{"alg":"HS256"}`) + "=." + enc(`{}`) + "=.",
-		enc(`{"alg":"HS256"}`) + "\n." + enc(`{}`) + " .",
-		enc(`{"alg":"HS256"}`) + "." + enc(`null`) + ".",
-		enc(`[]`) + "." + enc(`{"a":`+strings.Repeat("[", 200)+strings.Repeat("]", 200)+`}`) + ".",
-		enc(`{"alg":"HS512"}`) + "." + enc("{\"iss\":\"\xff\"}") + ".",
-	} {
-		for _, sel := range []uint8{0, 0x80, 0x80 | 9, 0x80 | 18, 0x80 | 27, 0x80 | 36, 0x80 | 46, 0x80 | 91} {
+	// ... and structural constants
+	for _, c := range []string{"", ".", "..", "...", "a.b.c", "e30.e30.", "e30.e30.AA"} {
+		for _, sel := range []uint8{0, 0x80, 0x80 | 9, 0x80 | 18, 0x80 | 27, 0x80 | 36} {
 			f.Add(sel, c)
 		}
 	}
